@@ -144,6 +144,8 @@ int main(int argc, char **argv)
 		for (size_t i = 0; i < n; i++) { unsigned v; sscanf(hx + 2 * i, "%2x", &v); doc[i] = (char)v; }
 		doc[n] = 0;
 		vh_case_begin(idx, "\"entry\":%d,\"len\":%zu", entry, n);
+		/* the provider in force alternates (per block of documents): loading, inspecting and freeing a keyring is provider-independent */
+		vh_set_prov((int)((idx / 7) & 1));
 		jwk_set_t *set = load_via(entry, doc, n, &eff, &before);
 		nloads++;
 		printf("[\"J\",%ld,%d,", idx, entry);
